@@ -155,18 +155,7 @@ def run(P, rep, tier):
         txt = [norm(n) for n in walk_no_nested(f.node) if isinstance(n, ast.Call) and isinstance(n.func, ast.Attribute) and n.func.attr == 'encode']
         if any('NEWLINE_FORMATS' in t or t.startswith(("'\\n'", "'\\r\\n'", '"\\n"')) for t in txt):
             funcs.append(f)
-    n_sites = 0
-    for f in funcs:
-        if not _encodes_newline(f, newline_consts):
-            continue
-        rep.analysed(f)
-        res = _route_check(P, f, strip, newline_consts)
-        for site, ok, msg in res:
-            n_sites += 1
-            if ok:
-                rep.ok(r3, '%s: %s' % (f.short, site))
-            else:
-                rep.violation(r3, 'unrouted:%s:%s' % (f.short, site), f.loc(), '%s: %s' % (f.short, msg), path=[f.short])
+    route_rule(P, rep, r3, funcs, strip, newline_consts)
     rep.floor(r3, 3)
     # ---- R4: the reader asks for a section's newline with that section's effective encoding ----------------
     r4 = rep.rule('C15-R4', 'the reader derives the newline of a content section (declared or detected) with the very encoding the '
@@ -201,6 +190,53 @@ def _same(a, b):
     return a is b or (is_concrete(a) and is_concrete(b) and concrete(a) == concrete(b))
 
 
+def route_rule(P, rep, rid, funcs, strip, newline_consts):
+    """Every function of ``funcs`` that encodes a newline constant: the encoded value goes through the BOM strip
+    with the same encoding before use; when a function only hands the encoded newline back, its callers are checked."""
+    n_sites = 0
+    todo = [(f, 0) for f in funcs if _encodes_newline(f, newline_consts)]
+    done = set()
+    while todo:
+        f, depth = todo.pop(0)
+        if f in done:
+            continue
+        done.add(f)
+        rep.analysed(f)
+        res = _route_check(P, f, strip, newline_consts)
+        for site, ok, msg, deferred in res:
+            n_sites += 1
+            if deferred:
+                cs = _callers(P, f)
+                if not cs or depth >= 3:
+                    rep.violation(rid, 'unrouted:%s:%s' % (f.short, site), f.loc(), '%s: %s (the encoded newline is returned and no caller '
+                                  'could be analysed)' % (f.short, msg), path=[f.short])
+                else:
+                    rep.info('%s returns the newline encoded by %s; checked in its callers %s' % (f.short, site, [c.short for c in cs]))
+                    todo += [(c, depth + 1) for c in cs]
+            elif ok:
+                rep.ok(rid, '%s: %s' % (f.short, site))
+            else:
+                rep.violation(rid, 'unrouted:%s:%s' % (f.short, site), f.loc(), '%s: %s' % (f.short, msg), path=[f.short])
+    return n_sites
+
+
+def _callers(P, g):
+    out = []
+    for f in P.all_functions():
+        if f is g:
+            continue
+        for n in walk_no_nested(f.node):
+            if isinstance(n, ast.Call):
+                try:
+                    r = P.resolve_call(f, n, self_cls=f.cls)
+                except Exception:
+                    r = None
+                if (isinstance(r, list) and g in r) or r is g:
+                    if f not in out:
+                        out.append(f)
+    return out
+
+
 def _encodes_newline(f, consts):
     for n in walk_no_nested(f.node):
         if isinstance(n, ast.Call) and isinstance(n.func, ast.Attribute) and n.func.attr == 'encode':
@@ -217,6 +253,7 @@ def _route_check(P, f, strip, consts):
                                         P.func('pydiffx.utils.unified_diffs', 'get_unified_diff_hunks')]))
     params = f.params()
     out = {}
+    deferred = set()
 
     def thunk():
         args = []
@@ -263,7 +300,7 @@ def _route_check(P, f, strip, consts):
             raise AnalysisError('too many paths in %s' % f.short)
         encs = []
         for ev in path.events:
-            if ev.kind == 'encode' and ev.fi is f:
+            if ev.kind == 'encode' and f in ev.stack:
                 recv = ev.data['recv']
                 isnl = (is_concrete(recv) and concrete(recv) in consts) or \
                     (isinstance(recv, Unk) and any(s_ and s_ <= frozenset(consts) for s_ in recv.in_sets)) or \
@@ -295,8 +332,22 @@ def _route_check(P, f, strip, consts):
             # a path that raises before using the newline needs no routing
             if path.outcome == 'raise':
                 routed = True
+            if not routed and path.outcome == 'return' and _returns_encoded(path.value, recv, enc):
+                # the encoded newline is handed back to the caller unused: the obligation moves to the callers
+                deferred.add(site)
+                routed = True
             cur = out.get(site)
             if cur is None or (cur[0] and not routed):
                 out[site] = (routed, 'the newline encoded by %s reaches its use without passing through %s with the same '
                              'encoding on some path: for BOM-emitting codecs the newline keeps its BOM' % (site, strip.short))
-    return [(s_, ok, msg) for s_, (ok, msg) in sorted(out.items())]
+    return [(s_, ok, msg, s_ in deferred) for s_, (ok, msg) in sorted(out.items())]
+
+
+def _returns_encoded(val, recv, enc, depth=0):
+    if isinstance(val, Unk) and val.src and val.src[0] == 'method' and val.src[2] == 'encode' and _same(val.src[1], recv):
+        return True
+    if isinstance(val, (tuple, list)) and depth < 3:
+        return any(_returns_encoded(x, recv, enc, depth + 1) for x in val)
+    if isinstance(val, AList) and depth < 3:
+        return any(_returns_encoded(x, recv, enc, depth + 1) for x in val.items)
+    return False
